@@ -99,6 +99,8 @@ def run(rep, tier, seed):
     for h in range(nh):
         nctx = rnd.randint(1, 4)
         stacks = [rnd.choice(STACKS) for _ in range(nctx)]
+        if h % 3 == 0:
+            stacks = [stacks[0]] * nctx          # contexts that accept the same packets: only the order of trial tells them apart
         seeds = [gen_parsed(rnd, s) for s in stacks]
         nrules = [rnd.randint(1, 3) for _ in range(nctx)]
         withdef = [rnd.random() < 0.3 and k == nctx - 1 for k in range(nctx)]
@@ -120,7 +122,9 @@ def run(rep, tier, seed):
             if withdef[k]:
                 rules.append(no_compression_rule(ids[pos]))
                 pos += 1
-            ctxs.append(Context(id='c%d' % k, description='', interface_id='if0', parser_id=stacks[k], ruleset=rules))
+            # context ids in an order that is not the lexicographic one: the order GIVEN to the front end is the order of trial
+            cid = ['zulu', 'mike', 'alpha', 'ctx-10', 'ctx-9', 'B', 'a'][(h + 3 * k) % 7] + ('-%d' % k if k > 3 else '')
+            ctxs.append(Context(id=cid, description='', interface_id='if0', parser_id=stacks[k], ruleset=rules))
         # contexts of OTHER interfaces must never be consulted: a decoy context that accepts everything sits on another interface
         decoys = [Context(id='decoy%d' % k, description='', interface_id='if%d' % (k + 1), parser_id=stacks[k % nctx],
                           ruleset=[no_compression_rule('1' * 17 + format(k, '02b'))]) for k in range(rnd.randint(0, 2))]
@@ -132,7 +136,7 @@ def run(rep, tier, seed):
             rep.hist['front-end-contexts-loaded-from-json'] = rep.hist.get('front-end-contexts-loaded-from-json', 0) + 1
         front = SCHC(order)
         nctxs = [[n_rule(r) for r in c.ruleset] for c in ctxs]
-        for step in range(6):
+        for step in range(10):
             r = rnd.random()
             if r < 0.6:
                 k = rnd.randrange(nctx)
